@@ -8,14 +8,14 @@ RE_REJ = re.compile(r'<<\s*"REJECT",\s*(\d+),\s*"(C\d+):([^"]*)",\s*(\d+)\s*>>')
 PROFILES_FOR = {
     "C04": ["contend", "wait", "mix", "res", "end"],
     "C05": ["contend", "res", "mix", "end"],
-    "C06": ["contend", "res", "pool", "buf", "queue", "cond"],
+    "C06": ["order", "contend", "res", "pool", "buf", "queue", "cond"],
     "C07": ["contend", "pool", "mix", "rec"],
     "C08": ["contend", "res", "pool", "buf", "queue", "mix", "end"],
     "C09": ["end", "wait", "mix"],
     "C11": ["contend", "buf", "mix", "rec"],
     "C12": ["contend", "queue", "mix", "rec"],
     "C13": ["cond", "mix"],
-    "C14": ["rec"],
+    "C14": ["rec", "longrec"],
 }
 
 
@@ -35,7 +35,7 @@ def program_text(trace, progid):
             if line.startswith('{"e":"Prog"'):
                 h = json.loads(line)
                 if h["id"] == progid:
-                    L = ["prog %d" % h["id"], "cap res=%d pool=%d buf=%d oq=%d pq=%d" % (h["nres"], h["poolcap"], h["bufcap"], h["oqcap"], h["pqcap"])]
+                    L = ["prog %d" % h["id"], "cap res=%d pool=%d buf=%d oq=%d pq=%d bufunit=%d" % (h["nres"], h["poolcap"], h["bufcap"], h["oqcap"], h["pqcap"], h.get("bufunit", 0))]
                     for i, code in enumerate(h["code"]):
                         L.append("proc %d %d %d : %s" % (i + 1, h["prio"][i], h["auto"][i],
                                  " ; ".join(" ".join(str(x) for x in ins) for ins in code)))
@@ -111,7 +111,7 @@ def run_kernel_check(pid, tier, replay, level_text_extra=""):
         # 2. seeded random programs
         n = 250 if tier == "quick" else 2500
         for pf in PROFILES_FOR[pid]:
-            path = gen_programs(pid, pf, n, vlib.seed(), out)
+            path = gen_programs(pid, pf, (3 if tier == "quick" else 12) if pf == "longrec" else n, vlib.seed(), out)
             for vn, ex in variants:
                 runs.append((vn, ex, path, "random " + pf))
     nprog = nontriv = crashes = 0
